@@ -54,6 +54,8 @@ class SThread:
 class Sim:
     """One simulated execution."""
 
+    wall_timeouts = 0
+
     def __init__(self, seed=0, switch_prob=0.3, max_events=120000, choices=None, delay_prob=0.0, max_delay_us=0):
         self.rng = random.Random(seed)
         self.switch_prob = switch_prob
@@ -304,8 +306,13 @@ class Sim:
             first = self.threads[0]
             self.cur = first
             first.baton.release()
+            # a thread stuck on a primitive the harness does not simulate burns real time: after two such sessions
+            # the remaining ones of this process get a short leash
+            if Sim.wall_timeouts >= 2:
+                timeout_s = min(timeout_s, 3)
             ok = self.driver_lock.acquire(timeout=timeout_s)
             if not ok:
+                Sim.wall_timeouts += 1
                 self.failure = Deadlock("wall-clock timeout of the simulation")
                 self.aborting = True
                 for t in self.threads:
@@ -357,6 +364,12 @@ class SimQueue:
         item = self.items.pop(0)
         s.ev("Deq", item=_item_repr(item), marker=_marker(item), qlen=len(self.items), nowait=not block)
         return item
+
+    def get_nowait(self):
+        return self.get(False)
+
+    def put_nowait(self, item):
+        return self.put(item, False)
 
     def qsize(self):
         return len(self.items)
@@ -474,6 +487,10 @@ class _QueueShim:
     def Queue(self, maxsize=0):
         return SimQueue(self._sim, maxsize)
 
+    def SimpleQueue(self):
+        # same unbounded FIFO contract (queue.SimpleQueue has no task_done/join, which the library does not use)
+        return SimQueue(self._sim, 0)
+
     def __getattr__(self, n):
         return getattr(_real_queue, n)
 
@@ -496,6 +513,19 @@ class _TimeShim:
         return self._sim.now / US
 
     def time(self):
+        return self._sim.now / US
+
+    # every clock the standard library offers reads the same virtual time
+    def monotonic_ns(self):
+        return self._sim.now * 1000
+
+    def perf_counter_ns(self):
+        return self._sim.now * 1000
+
+    def time_ns(self):
+        return self._sim.now * 1000
+
+    def process_time(self):
         return self._sim.now / US
 
     def __getattr__(self, n):
